@@ -18,7 +18,28 @@ MAX_VIOL_PRINTED = 12
 
 
 class Hang(BaseException):
-    """A guarded call did not finish within its wall-clock guard."""
+    """A guarded call did not finish within its guard."""
+
+
+def _arm(seconds):
+    """Arm both timers of the hang guard.  The tight one counts *CPU time of
+    this process* (ITIMER_PROF): a non-terminating pure-Python call burns CPU,
+    and a CPU clock does not fire merely because the machine is loaded or the
+    process was descheduled.  A generous wall-clock backstop (ITIMER_REAL)
+    catches a call that blocks without using CPU."""
+    signal.setitimer(signal.ITIMER_PROF, seconds)
+    signal.setitimer(signal.ITIMER_REAL,
+                     0 if not seconds else max(120, 20 * seconds))
+
+
+def _install(handler):
+    return (signal.signal(signal.SIGALRM, handler),
+            signal.signal(signal.SIGPROF, handler))
+
+
+def _restore(old):
+    signal.signal(signal.SIGALRM, old[0])
+    signal.signal(signal.SIGPROF, old[1])
 
 
 @contextlib.contextmanager
@@ -30,13 +51,13 @@ def guard(seconds=20):
     """
     def handler(_sig, _frm):
         raise Hang()
-    old = signal.signal(signal.SIGALRM, handler)
-    signal.setitimer(signal.ITIMER_REAL, seconds)
+    old = _install(handler)
+    _arm(seconds)
     try:
         yield
     finally:
-        signal.setitimer(signal.ITIMER_REAL, 0)
-        signal.signal(signal.SIGALRM, old)
+        _arm(0)
+        _restore(old)
 
 
 class Watch:
@@ -47,8 +68,8 @@ class Watch:
     def __init__(self, seconds=4):
         self.seconds = seconds
         self.n = 0
-        self.old = signal.signal(signal.SIGALRM, self._handler)
-        signal.setitimer(signal.ITIMER_REAL, seconds)
+        self.old = _install(self._handler)
+        _arm(seconds)
 
     @staticmethod
     def _handler(_sig, _frm):
@@ -57,14 +78,14 @@ class Watch:
     def tick(self):
         self.n += 1
         if not self.n & 255:
-            signal.setitimer(signal.ITIMER_REAL, self.seconds)
+            _arm(self.seconds)
 
     def rearm(self):
-        signal.setitimer(signal.ITIMER_REAL, self.seconds)
+        _arm(self.seconds)
 
     def close(self):
-        signal.setitimer(signal.ITIMER_REAL, 0)
-        signal.signal(signal.SIGALRM, self.old)
+        _arm(0)
+        _restore(self.old)
 
 
 class Ctx:
@@ -93,7 +114,7 @@ class Ctx:
         """Register one explored case. key: hashable canonical form."""
         self.evaluations += 1
         if not self.evaluations & 63 and self.watchdog:
-            signal.setitimer(signal.ITIMER_REAL, self.watchdog)
+            _arm(self.watchdog)
         h = hash(key)
         self.states.add(h)
         if nontrivial:
@@ -111,7 +132,7 @@ class Ctx:
         if seconds is not None:
             self.watchdog = seconds if self.watchdog else 0
         if self.watchdog:
-            signal.setitimer(signal.ITIMER_REAL, self.watchdog)
+            _arm(self.watchdog)
 
     def calls(self, n=1):
         self.transitions += n
@@ -262,8 +283,8 @@ def _run_one(indexed_task):
 
     def on_alarm(_sig, _frm):
         raise Hang()
-    old_handler = signal.signal(signal.SIGALRM, on_alarm)
-    signal.setitimer(signal.ITIMER_REAL, ctx.watchdog)
+    old_handler = _install(on_alarm)
+    _arm(ctx.watchdog)
     try:
         mod.run(task, ctx)
         err = None
@@ -281,8 +302,8 @@ def _run_one(indexed_task):
     except BaseException:  # an engine error is a broken check, not a verdict
         err = 'task {!r}: {}'.format(task, traceback.format_exc())
     finally:
-        signal.setitimer(signal.ITIMER_REAL, 0)
-        signal.signal(signal.SIGALRM, old_handler)
+        _arm(0)
+        _restore(old_handler)
         ctx.watchdog = 0
     out = ctx.export()
     out['index'] = idx
